@@ -125,7 +125,20 @@ func OracleC11(tr *Trace) Verdict {
 				continue
 			}
 			if c.ToSeq >= 0 && c.ToT < due {
-				continue // lost leadership earlier by another mechanism
+				// lost leadership earlier by another mechanism - unless it leads again when the grace period
+				// elapses (the store stayed reachable and it re-acquired the key): "if no reconnect notification
+				// arrived and it still leads" is about that moment, whichever term it is
+				var again *Claim
+				for _, c2 := range claims {
+					if c2.Obj == obj && c2.FromT > c.ToT && c2.FromT < due && (c2.ToSeq < 0 || c2.ToT >= due) {
+						again = c2
+					}
+				}
+				if again == nil {
+					continue
+				}
+				v.Classes = append(v.Classes, "term-changed-inside-the-grace-period")
+				c = again
 			}
 			v.Classes = append(v.Classes, "grace-expiry-reached")
 			sigExtra := ""
